@@ -21,7 +21,7 @@ E3_CORPUS = [
     dict(name="g1_expr", file="/verif/corpus/g1_expr.rustemo", args=[], quick=False),
     dict(name="g9_pager", file="/repo/tests/src/special/pager_g1/pager_g1.rustemo", args=[], quick=False),
     dict(name="json", file="/repo/examples/json/src/json.rustemo", args=[], quick=False),
-    dict(name="layout", file="/repo/tests/src/layout/generic_tree/layout.rustemo", args=[], quick=False),
+    dict(name="layout", file="/repo/tests/src/layout/generic_tree/layout.rustemo", args=[], quick=True),
     dict(name="lexamb", file="/repo/tests/src/lexical_ambiguity/priorities/priorities.rustemo", args=[], quick=False),
     dict(name="glr_lexamb", file="/repo/tests/src/glr/lexical_ambiguity/longest_match_off/longest_match.rustemo", args=["--glr", "--ms=false", "--lm=false"], quick=False),
     dict(name="glr_g2", file="/verif/corpus/g2_nullable.rustemo", args=["--glr"], quick=False),
@@ -80,8 +80,35 @@ def generate_e3(tier):
                     continue
                 pk_of[p["idx"]] = k
                 k += 1
-            if (len(states), len(toks), len(nts), len(prods)) != (NS, NT, NN, k):
-                raise gen_e4.GenError("%s: enum sizes %s differ from the table %s" % (name, (len(states), len(toks), len(nts), len(prods)), (NS, NT, NN, k)))
+            # index <-> variant correspondence BY NAME (the generator names variants after the
+            # table entries: terminal / non-terminal names, `<symbol>S<idx>`, `<NonTerm><kind|Pn>`);
+            # that the discriminant equals the table index is asserted only where the generated
+            # code relies on it (`state as usize`, `token as usize`; `nonterm as usize` in the
+            # arrays layout). A table entry whose variant does not exist cannot be queried and
+            # is excluded from the symbolic range.
+            def sym_name(i):
+                return g["terminals"][i]["name"] if i < NT else g["nonterminals"][i - NT]["name"]
+
+            def opt(enum, names, have):
+                return ",".join(("Some(%s::%s)" % (enum, n)) if n in have else "None" for n in names)
+
+            state_names = ["%sS%d" % (sym_name(st_["symbol"]), st_["idx"]) for st_ in t["states"]]
+            tok_names = [x["name"] for x in g["terminals"]]
+            nt_names = [x["name"] for x in g["nonterminals"]]
+            prod_names = []
+            for p_ in g["productions"]:
+                if p_["idx"] in pk_of:
+                    prod_names.append(g["nonterminals"][p_["nt"]]["name"] + (p_["kind"] if p_["kind"] else "P%d" % (p_["ntidx"] + 1)))
+            missing = [n for n in state_names if n not in states] + [n for n in tok_names if n not in toks]
+            if missing:
+                # a state or token of the table has no variant at all: no parser can be driven
+                msg = "C08 the generated enums have no variant for table entries %s" % missing[:4]
+                mods.append("pub mod %s {\n%s\n}\n" % (name, text))
+                harn.append("\npub mod %s {\n%s}\n" % (name, "".join(
+                    "    #[kani::proof]\n    pub fn %s() {\n        assert!(false, \"%s\");\n    }\n" % (q, msg) for q in ("actions", "gotos", "expected", "misc"))))
+                info[name] = {"grammar": c["file"], "args": c["args"] + largs, "enum_mismatch": msg}
+                names.append(name)
+                continue
 
             def enc(a):
                 if a[0] == "S":
@@ -107,8 +134,19 @@ pub mod {name} {{
     use {m}::{{State, TokenKind, ProdKind, NonTermKind, PARSER_DEFINITION}};
     const STATES: [State; {NS}] = [{states}];
     const TOKENS: [TokenKind; {NT}] = [{toks}];
-    const NONTERMS: [NonTermKind; {NN}] = [{nts}];
-    const PRODS: [ProdKind; {NPK}] = [{prods}];
+    const NONTERMS: [Option<NonTermKind>; {NN}] = [{nts}];
+    const PRODS: [Option<ProdKind>; {NPK}] = [{prods}];
+    /// ProdKind variant -> table production index (by name)
+    fn prod_index(p: ProdKind) -> usize {{
+        let mut i = 0;
+        while i < {NPK} {{
+            if PRODS[i] == Some(p) {{
+                return i;
+            }}
+            i += 1;
+        }}
+        usize::MAX
+    }}
     static WANT_ACTIONS: [[&[(usize, usize, usize)]; {NT}]; {NS}] = [{want_actions}];
     static WANT_GOTOS: [[usize; {NN}]; {NS}] = [{want_gotos}];
     static WANT_EXPECTED: [&[(usize, bool)]; {NS}] = [{want_exp}];
@@ -127,7 +165,11 @@ pub mod {name} {{
         assert!(got.len() == want.len(), "C08 number of actions of a cell");
         let mut i = 0;
         while i < got.len() && i < {maxa} {{
-            assert!(enc!(got[i]) == want[i], "C08 action = computed action, in order");
+            let e = match got[i] {{
+                Action::Reduce(p, l) => (2usize, prod_index(p), l),
+                a => enc!(a),
+            }};
+            assert!(e == want[i], "C08 action = computed action, in order");
             i += 1;
         }}
         kani::cover!(want.len() >= 1 && want[0].0 == 2, "a reduction cell");
@@ -144,8 +186,10 @@ pub mod {name} {{
         kani::assume(s < {NS} && n < {NN});
         let want = WANT_GOTOS[s][n];
         kani::assume(want != usize::MAX);
-        assert!(NONTERMS[n] as usize == n, "C08 enums are in table order");
-        let got = PARSER_DEFINITION.goto(STATES[s], NONTERMS[n]);
+        kani::assume(NONTERMS[n].is_some());
+        let nt = NONTERMS[n].unwrap();
+        {nt_order}
+        let got = PARSER_DEFINITION.goto(STATES[s], nt);
         assert!(got as usize == want, "C08 goto = computed goto");
         kani::cover!(s > 0, "goto from a non-initial state");
     }}
@@ -185,20 +229,19 @@ pub mod {name} {{
         assert!(State::default() as usize == 0 && TokenKind::default() as usize == 0, "C08 start state and STOP are index 0");
         let p: usize = kani::any();
         kani::assume(p < {NPK});
-        assert!(PRODS[p] as usize == p, "C08 enums are in table order");
-        let nt: NonTermKind = PRODS[p].into();
-        assert!(nt as usize == PROD_NT[p], "C08 production -> non-terminal");
+        kani::assume(PRODS[p].is_some());
+        let nt: NonTermKind = PRODS[p].unwrap().into();
+        assert!(NONTERMS[PROD_NT[p]].map(|x| x as usize) == Some(nt as usize), "C08 production -> non-terminal");
     }}
 }}
 """.format(
                     name=name, m=m, NS=NS, NT=NT, NN=NN, NPK=k,
-                    states=",".join("State::" + v for v in states), toks=",".join("TokenKind::" + v for v in toks),
-                    nts=",".join("NonTermKind::" + v for v in nts), prods=",".join("ProdKind::" + v for v in prods),
+                    states=",".join("State::" + v for v in state_names), toks=",".join("TokenKind::" + v for v in tok_names),
+                    nts=opt("NonTermKind", nt_names, nts), prods=opt("ProdKind", prod_names, prods),
+                    nt_order=('assert!(nt as usize == n, "C08 the arrays layout indexes goto columns by the NonTermKind discriminant");' if layout == "arr" else "// functions layout: goto arms match by name"),
                     want_actions=want_actions, want_gotos=want_gotos, want_exp=want_exp, prod_nt=prod_nt,
-                    ua=max(maxa + 3, NT + 3, 8), ue=max(maxe + 3, 8), maxa=maxa, maxe=maxe,
-                    dispatch_a="\n".join("            %d => PARSER_DEFINITION.actions(State::%s, tk)," % (i, v) for i, v in enumerate(states)),
-                    dispatch_g="\n".join("            %d => PARSER_DEFINITION.goto(State::%s, nt)," % (i, v) for i, v in enumerate(states)),
-                    dispatch="\n".join("            %d => PARSER_DEFINITION.expected_token_kinds(State::%s)," % (i, v) for i, v in enumerate(states)),
+                    ua=max(maxa + 3, NT + 3, k + 2, 8), ue=max(maxe + 3, 8), maxa=maxa, maxe=maxe,
+                    dispatch="\n".join("            %d => PARSER_DEFINITION.expected_token_kinds(State::%s)," % (i, v) for i, v in enumerate(state_names)),
                     defn=re.search(r"pub struct (\w+ParserDefinition)", text).group(1),
                     lm="true" if st["lexical_disamb_longest_match"] else "false",
                     go="true" if st["lexical_disamb_grammar_order"] else "false",
